@@ -288,7 +288,7 @@ class GetitemMonitor:
         offs = F(b) / m["rate"]
         got = exact.time_diff_s(st, m["start"])
         tol = exact.time_tol(offs)
-        if kept > 0 or True:
+        if kept > 0:
             if abs(got - offs) > tol:
                 ctx.violation(o, f"start_time advanced by {float(got)!r} s, expected {b}/{float(m['rate'])} = {float(offs)!r} s "
                                  f"(err {float(got - offs):.3e} s = {float((got - offs) * m['rate']):.3e} samples)",
@@ -328,6 +328,15 @@ class GetitemMonitor:
         for i, w in enumerate(want):
             if abs(F(float(vals[i])) - w) > tol:
                 err = F(float(vals[i])) - w
+                # does the observed labelling match "chan_bw re-derived from the decimated sample rate"?
+                nb = b - a
+                if len(index) > 1:
+                    c2, a2 = (want[0] + want[-1]) / 2, F(1, 2)
+                else:
+                    c2, a2 = m["fc"], (F(1, 2) if n % 2 else ALIGN[m["align"]])
+                pred = [c2 + (m["bw"] / ts[2]) * (j + a2 - F(nb, 2)) for j in range(nb)]
+                feats["rescale_mechanism"] = bool(ts[2] > 1 and all(
+                    abs(F(float(vals[j])) - pred[j]) <= tol for j in range(nb)))
                 ctx.violation(o, f"channel {a + i} of the input is labelled {float(w)!r} Hz, selected channel {i} is labelled "
                                  f"{float(vals[i])!r} Hz (err {float(err):.6g} Hz = {float(err / m['bw']):.4g} channels)",
                               {"index": index, "fc": float(m["fc"]), "bw": float(m["bw"]), "align": m["align"], "nchan": n},
@@ -351,8 +360,18 @@ class GetitemMonitor:
         mo = meta_of(out)
         if mo["rate"] != m["rate"] or not same_time(mo["start"], m["start"], 0) or mo["len"] != m["len"]:
             ctx.violation(o, f"sig[{key!r}] changed time metadata", None, dict(feats, what="time"))
-        if mo["fc"] != m["fc"] or mo["bw"] != m["bw"] or mo["align"] != m["align"] or mo["nchan"] != m["nchan"]:
-            ctx.violation(o, f"sig[{key!r}] changed frequency metadata", None, dict(feats, what="freq"))
+        if mo["nchan"] != m["nchan"] or mo["bw"] != m["bw"]:
+            ctx.violation(o, f"sig[{key!r}] changed nchan/chan_bw", None, dict(feats, what="freq"))
+        else:
+            tol = label_tol(m["fc"], m["bw"], m["nchan"])
+            la, lb = model_labels(m["fc"], m["bw"], m["align"], m["nchan"]), model_labels(mo["fc"], mo["bw"], mo["align"], mo["nchan"])
+            if tol <= m["bw"] / 1000 and any(abs(x - y) > tol for x, y in zip(la, lb)):
+                ctx.violation(o, f"sig[{key!r}] changed the channel labels: {float(la[0])!r}.. -> {float(lb[0])!r}.. "
+                                 f"(align {m['align']} -> {mo['align']})", None, dict(feats, what="freq"))
+            with probes.quiet():
+                bp = band_model_problems(out)
+            for code, text in (bp or []):
+                ctx.violation(o, f"sig[{key!r}]: {text}", None, dict(feats, what="band_" + code))
         if not m["dask"] and sig.shape[0] * int(np.prod(sig.shape[1:])) <= 1 << 16:
             k = "IQUV".index(key)
             want = np.asarray(sig.data)[:, :, k]
